@@ -445,6 +445,9 @@ def run(rep, prog, thorough):
     check_getDisplayCompID(rep, prog)
     check_tables(rep, prog)
     rep.floor("displayed keys checked", nkeys, 40)
+    # a field is displayed as decoded only if the alignment pass leaves keys and values alone (rule shared with C06)
+    from .c06 import check_call_sites, check_prettyprint
+    check_prettyprint(rep, prog, check_call_sites(rep, prog))
 
 
 def check_getDisplayCompID(rep, prog):
